@@ -18,10 +18,14 @@ GVar(n, vk, fields) == [name |-> n, vk |-> vk, fields |-> fields]
 \* tparams: sequence of names; cparams: sequence of [name, ck]
 DefStruct(n, zc, da, reprs, cparams, tparams, fields) ==
   [dk |-> "struct", name |-> n, zc |-> zc, da |-> da, reprs |-> reprs,
-   cparams |-> cparams, tparams |-> tparams, fields |-> fields, variants |-> <<>>]
+   cparams |-> cparams, tparams |-> tparams, tbounds |-> [i \in 1..Len(tparams) |-> ""],
+   fields |-> fields, variants |-> <<>>]
 DefEnum(n, zc, da, reprs, cparams, tparams, variants) ==
   [dk |-> "enum", name |-> n, zc |-> zc, da |-> da, reprs |-> reprs,
-   cparams |-> cparams, tparams |-> tparams, fields |-> <<>>, variants |-> variants]
+   cparams |-> cparams, tparams |-> tparams, tbounds |-> [i \in 1..Len(tparams) |-> ""],
+   fields |-> <<>>, variants |-> variants]
+\* bounds written on the type parameters of the definition (Rust syntax)
+WithBounds(def, bs) == [def EXCEPT !.tbounds = bs]
 
 RECURSIVE Subst(_, _, _)
 Subst(g, targs, cargs) ==
@@ -65,7 +69,7 @@ I32 == Prim("i32")   BoolT == Prim("bool")
 
 D_ZPad   == DefStruct("ZPad", TRUE, FALSE, <<"C">>, <<>>, <<>>,
                       <<GF("a", U8), GF("b", U32), GF("c", U16)>>)
-D_ZA16   == DefStruct("ZA16", TRUE, FALSE, <<"C", "align (16)">>, <<>>, <<>>, <<GF("x", U32)>>)
+D_ZA16   == DefStruct("ZA16", TRUE, FALSE, <<"C", "align(16)">>, <<>>, <<>>, <<GF("x", U32)>>)
 D_ZUnit  == DefStruct("ZUnit", TRUE, FALSE, <<"C">>, <<>>, <<>>, <<>>)
 D_ZNest  == DefStruct("ZNest", TRUE, FALSE, <<"C">>, <<>>, <<>>,
                       <<GF("p", Inst(D_ZPad, <<>>, <<>>)), GF("q", U64)>>)
@@ -78,8 +82,9 @@ D_ZEP    == DefEnum("ZEP", TRUE, FALSE, <<"C">>, <<>>, <<>>,
                     <<GVar("A", "unit", <<>>),
                       GVar("B", "tuple", <<GF("0", U8), GF("1", U64)>>),
                       GVar("C", "named", <<GF("x", U16)>>)>>)
-D_ZPh    == DefStruct("ZPh", TRUE, FALSE, <<"C">>, <<>>, <<"A">>,
-                      <<GF("a", U32), GF("p", Phantom(Param(1)))>>)
+D_ZPh    == WithBounds(DefStruct("ZPh", TRUE, FALSE, <<"C">>, <<>>, <<"A">>,
+                                 <<GF("a", U32), GF("p", Phantom(Param(1)))>>),
+                       <<"epserde::traits::ZeroCopy">>)
 D_ZC     == DefStruct("ZC", TRUE, FALSE, <<"C">>, <<[name |-> "N", ck |-> "usize"]>>, <<>>,
                       <<GF("a", CArray(1, U8)), GF("t", U16)>>)
 D_DS     == DefStruct("DS", FALSE, FALSE, <<>>, <<>>, <<>>,
